@@ -443,8 +443,8 @@ def check_superposition(ctx, out, comps, w_max, td, ws, scale, rng):
     if f['near_coincident']:
         # sources within the resolution are analysed at one common frequency: their own frequency is
         # replaced by one at most w_resolution away, which shifts cos(w t + φ) by up to w_resolution·t —
-        # compare at t = 0 only, where only the (tiny) frequency dependence of the impedances remains
-        ts = [0.0]; tol = 1e-3
+        # compare at small t only (t ≤ 1: the shift is below the tolerance)
+        ts = [0.0, 0.5, 1.0]; tol = 3e-3
     passive = [c['id'] for c in comps if not is_source(c) and c['kind'] != 'gnd']
     _, nodes = quantities(comps)
     out.nontrivial(('superpose', len(srcs), len(ws), f['near_coincident'], f['chain_within_resolution'], f['lossy_other_frequency']))
@@ -535,6 +535,78 @@ def check_reconstruction(ctx, out, wave, V, w0, phi, w_max):
         return
     out.count('reconstruction_ok')
 
+def check_harmonic_lines(ctx, out, kind, wave, A, w0, phi, n_harm, extra=None):
+    """every retained harmonic of an ideal periodic source: the spectral line of the source's own
+    voltage (current) at the listed frequency that represents k·w0 equals amplitude(k)·exp(j·phase(k)) of the
+    implementation's own fourier_series object; the reconstructed waveform projects onto every retained
+    harmonic with that coefficient.  `extra`: a second (sinusoidal) source, e.g. one that coincides with a
+    harmonic within the resolution."""
+    from CircuitCalculator.Circuit.solution import TimeDomainSolution, FrequencyDomainSolution
+    from CircuitCalculator.SignalProcessing.periodic_functions import periodic_function, fourier_series
+    out.evaluations += 1
+    w_max = w0 * (n_harm + 0.5)
+    if kind == 'Vper':
+        comps = [dict(kind='Vper', id='P', nodes=['a', 'g'], v=A, w=w0, phi=phi, wave=wave),
+                 dict(kind='R', id='R', nodes=['a', 'b'], v=2.0), dict(kind='R', id='R2', nodes=['b', 'g'], v=1.0)]
+    else:
+        comps = [dict(kind='Iper', id='P', nodes=['g', 'a'], v=A, w=w0, phi=phi, wave=wave),
+                 dict(kind='R', id='R', nodes=['a', 'b'], v=2.0), dict(kind='R', id='R2', nodes=['b', 'g'], v=1.0),
+                 dict(kind='R', id='R3', nodes=['a', 'g'], v=4.0)]
+    if extra is not None:
+        if extra['kind'] == 'Vac':   # in series inside the R–R2 branch
+            comps[2] = dict(kind='R', id='R2', nodes=['b', 'c'], v=1.0)
+            comps.append(dict(extra, id='E', nodes=['c', 'g']))
+        else:
+            comps.append(dict(extra, id='E', nodes=['g', 'b']))
+    comps.append(dict(kind='gnd', id='gnd', nodes=['g']))
+    P = dict(circuit=pretty(comps), w_max=w_max)
+    case = dict(kind='harmonic_lines', src=kind, wave=wave, A=A, w0=w0, phi=phi, n_harm=n_harm, extra=extra)
+    circuit = mk_circuit(comps)
+    fd = FrequencyDomainSolution(circuit, w_max=w_max)
+    ws = [float(w) for w in fd.w]
+    f = facts(comps, ws)
+    getter = fd.get_voltage if kind == 'Vper' else fd.get_current
+    X = [complex(x) for x in getter('P')[1]]
+    fs = fourier_series(periodic_function(wave)(period=2 * np.pi / w0, amplitude=A, phase=phi))
+    canon = dict(op='harmonic_line', source=kind, wave=wave, dyadic_w0=Fraction(w0).denominator <= 2 ** 20, second_source=extra is not None, **f)
+    out.nontrivial(('harmonic_lines', kind, wave, extra is not None, round(math.log10(w0))))
+    # every retained harmonic must be represented by a listed frequency
+    seen = set()
+    for wk, xk in zip(ws, X):
+        q = Fraction(wk) / Fraction(w0)
+        k = int(math.floor(q + Fraction(1, 2)))
+        if abs(Fraction(wk) - k * Fraction(w0)) > Fraction(W_RES):
+            want = 0j; k = None          # not a harmonic of this source: replaced by a short / an open circuit
+        else:
+            want = fs.amplitude(k) * cmath.exp(1j * fs.phase(k)); seen.add(k)
+        if not core.close(xk, want, abs(A), 1e-9):
+            out.spec_fail(dict(canon, symptom='line_differs_from_harmonic'),
+                          f'{"voltage" if kind == "Vper" else "current"} line of the periodic source at w={wk!r} (harmonic {k} of w0={w0!r}) is {xk}, '
+                          f'fourier_series gives amplitude·exp(j·phase) = {want}', P, impl=dict(line=xk, w=wk), spec=dict(k=k, harmonic=want), case=case)
+            return
+    missing = [k for k in range(0, n_harm + 1) if k not in seen]
+    if missing:
+        out.spec_fail(dict(canon, symptom='harmonic_not_analysed'), f'harmonics {missing[:5]} ≤ w_max are represented by no analysed frequency', P,
+                      impl=dict(w=ws[:8]), case=case)
+        return
+    # projection of the reconstructed waveform on every retained harmonic (single periodic source only)
+    if extra is None:
+        td = TimeDomainSolution(circuit, w_max=w_max)
+        fn = td.get_voltage('P') if kind == 'Vper' else td.get_current('P')
+        N = 4 * (n_harm + 2)
+        t = np.arange(N) * (2 * np.pi / w0 / N)
+        v = np.array(fn(t), dtype=float)
+        for k in range(0, n_harm + 1):
+            c = np.sum(v * np.exp(-1j * k * w0 * t)) / N * (1 if k == 0 else 2)
+            want = fs.amplitude(k) * cmath.exp(1j * fs.phase(k))
+            if k == 0: want = want.real
+            if not core.close(c, want, abs(A), 1e-8):
+                out.spec_fail(dict(canon, symptom='projection_differs_from_harmonic'),
+                              f'projection of the reconstructed waveform on harmonic {k} of w0={w0!r} is {c}, fourier_series gives {want}', P,
+                              impl=dict(c=c), spec=dict(k=k, harmonic=want), case=case)
+                return
+    out.count('harmonic_lines_ok')
+
 # --------------------------------------------------------------------------- driver of the cases
 
 def run_solution_case(ctx, out, comps, w_max, rng):
@@ -574,6 +646,9 @@ CORPUS = [
     ([dict(kind='Vac', id='V1', nodes=['1', '0'], v=1.0, w=1.0), dict(kind='Vac', id='V2', nodes=['2', '1'], v=1.0, w=1.0009),
       dict(kind='Vac', id='V3', nodes=['3', '2'], v=1.0, w=1.0011), dict(kind='R', id='R', nodes=['3', '0'], v=1.0),
       dict(kind='gnd', id='gnd', nodes=['0'])], 10.0),
+    # sinusoid on harmonic 3 of w0 = 0.7 (3·0.7 = 2.0999999999999996 in binary64), rect with a phase so that t = 0 is not a zero
+    ([dict(kind='Vper', id='Vp', nodes=['1', '0'], v=1.0, w=0.7, wave='rect', phi=1.0), dict(kind='Iac', id='I2', nodes=['0', '2'], v=1.0, w=2.1, phi=0.5),
+      dict(kind='R', id='R', nodes=['2', '1'], v=1.0), dict(kind='R', id='R0', nodes=['2', '0'], v=2.0), dict(kind='gnd', id='gnd', nodes=['0'])], 3.0),
     # bit-equal coincidence: merged
     ([dict(kind='Vper', id='Vp', nodes=['1', '0'], v=1.0, w=2.0, wave='saw', phi=1.0), dict(kind='Iac', id='I2', nodes=['2', '0'], v=1.0, w=4.0),
       dict(kind='R', id='R1', nodes=['2', '1'], v=1.0), dict(kind='R', id='R2', nodes=['2', '0'], v=2.0), dict(kind='C', id='C', nodes=['2', '0'], v=0.5),
@@ -620,6 +695,22 @@ def run(ctx, out):
         pool = DYADIC_W + ([1.0 + EPS, 2.0 + EPS] if r < 0.2 else [1.0 + D1, 1.0 + D2, 1.0 + D1, 1.0 + D2, 1.0] if r < 0.3 else [])
         comps = random_circuit(rng, w_pool=pool)
         run_solution_case(ctx, out, comps, rng.choice([0.0, 2.0, 4.5, 6.0]), rng)
+    # harmonics of periodic sources with non-dyadic fundamentals, ≥ 50 harmonics each
+    FUND = [2 * math.pi * 50, 2 * math.pi * 60, 0.7, 0.1, 0.3, 1 / 3, 1e3 * math.pi, 2.0, 0.75]
+    rngh = ctx.rng('harmonics')
+    funds = FUND + [round(rngh.uniform(0.05, 50), 3) for _ in range(4 if ctx.quick else 60)] + \
+        [float(f'{rngh.uniform(1, 9.99):.3g}') * 10.0 ** rngh.randint(-2, 4) for _ in range(3 if ctx.quick else 60)]
+    for i, w0 in enumerate(funds):
+        if ctx.time_left() < 15: break
+        for kind in ('Vper', 'Iper'):
+            wave = WAVES[(i + (kind == 'Iper')) % len(WAVES)] if ctx.quick else rngh.choice(WAVES)
+            check_harmonic_lines(ctx, out, kind, wave, rngh.choice([1.0, -2.0, 0.5]), w0, rngh.choice(PHASES), rngh.randint(50, 60))
+    # a sinusoidal source that coincides with a harmonic within the resolution (from below / above / exactly)
+    for w0, k in [(0.1, 3), (0.7, 3), (0.1, 7), (2 * math.pi * 50, 15), (1 / 3, 3), (0.3, 41)]:
+        for kind in ('Vper', 'Iper'):
+            for wx in (float(Fraction(k) * Fraction(w0)), k * w0, float(Fraction(str(round(k * w0, 6))))):
+                ex = dict(kind=rngh.choice(['Vac', 'Iac']), v=1.0, w=wx, phi=0.5)
+                check_harmonic_lines(ctx, out, kind, rngh.choice(['rect', 'saw', 'tri']), 1.0, w0, 0.25, max(k + 2, 12), extra=ex)
     # reconstruction of periodic waveforms
     for wave in WAVES:
         for (V, w0, phi, w_max) in [(1.0, 2.0, 0.0, 41.0), (-2.0, 0.5, 1.0, 30.0)] if ctx.quick else \
@@ -637,5 +728,7 @@ def replay(ctx, out, rp):
     elif k in ('solution', 'two_sided'):
         check_freqs(ctx, out, case['comps'], case['w_max'], False)
         run_solution_case(ctx, out, case['comps'], case['w_max'], rng)
+    elif k == 'harmonic_lines':
+        check_harmonic_lines(ctx, out, case['src'], case['wave'], case['A'], case['w0'], case['phi'], case['n_harm'], extra=case.get('extra'))
     elif k == 'reconstruction':
         check_reconstruction(ctx, out, case['wave'], case['V'], case['w0'], case['phi'], case['w_max'])
